@@ -266,7 +266,7 @@ func (d *dRun) runSeq(c dClient) error {
 	case end := <-ch:
 		d.finish(c, end)
 		return nil
-	case <-time.After(20 * time.Second):
+	case <-time.After(90 * time.Second):
 		return fmt.Errorf("client %s does not end", c.name)
 	}
 }
@@ -292,7 +292,7 @@ func (d *dRun) race(sc dScenario) error {
 			if ended[c.name] {
 				continue
 			}
-			_, isEnded, ok := d.gate.Peek(c.name, 10*time.Second)
+			_, isEnded, ok := d.gate.Peek(c.name, 60*time.Second)
 			if !ok {
 				return fmt.Errorf("client %s neither calls the store nor ends", c.name)
 			}
@@ -476,6 +476,16 @@ func diamondScenarios(seed int64, thorough bool) []dScenario {
 		ur := u2
 		ur.faultGet = "split-done"
 		out = append(out, dScenario{label: "done-split-read-fault", setup: []dClient{u1}, then: []dClient{ur, k1}})
+	}
+	// the commit's read of a completed split's file list fails transiently: the commit must fail (or be complete),
+	// never publish a bundle without that split's files; the retried commit publishes everything
+	{
+		kf := k1
+		kf.faultGet = "bundle-files-"
+		out = append(out, dScenario{label: "commit-list-read-fault", setup: []dClient{u1, u3}, then: []dClient{kf, k2}})
+		kg := k1
+		kg.faultGet = "bundle-files-"
+		out = append(out, dScenario{label: "commit-list-read-fault", setup: []dClient{u1, u2, u3}, then: []dClient{kg, k2}})
 	}
 	// a commit of exactly 1000 entries (one full index file and no partial one) whose index-file write fails
 	// transiently: the bundle must not become visible; the retried commit publishes it
